@@ -294,7 +294,10 @@ Definition replay_one (prune : bool) (sr : st * list nat) (o : obs) : option (st
                      end
            | _ => None
            end
-  | ECancelRet t => match thr_at s t with LCancelled => Some (s, ret) | _ => None end
+  | ECancelRet t =>
+      (* L0: Lock gave up before it enqueued (a context check ahead of the queue is harmless for
+         this property; whether it leaves a queue object behind is judged by code 6) *)
+      match thr_at s t with LCancelled | L0 => Some (s, ret) | _ => None end
   | EUnlockRet _ _ => Some (s, ret)
   end.
 
@@ -350,6 +353,9 @@ Record kcase := { k_n : nat; k_trace : list obs; k_entry : bool; k_len : nat }.
 Definition check_key (prune : bool) (c : kcase) : N :=
   match oracle [] [] [] (k_trace c) with
   | 0%N =>
+      (* after quiescence every Lock call has returned and every TTL has fired: a queue object
+         that is still in the map with nobody queued is per-key state of a released key (C28) *)
+      if prune && k_entry c && Nat.eqb (k_len c) 0 then 6%N else
       match replay prune (init (k_n c), []) (k_trace c) with
       | Some (s, _) =>
           if Nat.eqb (cur_len s) (k_len c) && (Bool.eqb (has_entry s) (k_entry c) || negb prune)
